@@ -53,6 +53,18 @@ theorem qc_report_spec (inFmt : Fmt) (asmName : Str) (lines : List Str) (outFmt 
   obtain ⟨i, j, _, hi, hj⟩ := (mem_allPairs_iff _ _ _).1 hmem
   exact ⟨(s4 f n).1 (List.mem_of_getElem? hi), (s4 g m).1 (List.mem_of_getElem? hj), hov⟩
 
+/-- …and the report can always be printed: `report_overlaps` (which formats every fragment with `Fragment.__str__`)
+    cannot raise on the pairs of a parsed assembly -/
+theorem qc_report_renders (inFmt : Fmt) (asmName : Str) (lines : List Str) (outFmt : Option OutFmt)
+    (text : Str) (pairs : List OvPair) (h : processFh inFmt asmName lines outFmt true = .ok (text, pairs)) :
+    ∃ t, reportOverlapsText asmName pairs = .ok t := by
+  obtain ⟨asm, hp, _, _, hmem, _⟩ := qc_report_spec inFmt asmName lines outFmt text pairs h
+  have hrows := parseFh_rowsParsed hp
+  apply reportOverlapsText_ok
+  intro p hpm
+  obtain ⟨⟨s1, hs1, hf1, _⟩, ⟨s2, hs2, hf2, _⟩, _⟩ := hmem p hpm
+  exact ⟨(hrows s1 hs1 _ ((mem_fragmentsOf _ _).1 hf1)).1, (hrows s2 hs2 _ ((mem_fragmentsOf _ _).1 hf2)).1⟩
+
 /-- without the option nothing is ever reported -/
 theorem no_qc_no_report (inFmt : Fmt) (asmName : Str) (lines : List Str) (outFmt : Option OutFmt)
     (text : Str) (pairs : List OvPair) (h : processFh inFmt asmName lines outFmt false = .ok (text, pairs)) :
